@@ -299,6 +299,14 @@ func (b *Board) handleValidatorPubKeyShareMessage(ctx context.Context, peerID pe
 		return nil, false, errors.New("validator pubkey share request session ID mismatch", z.Str("peer_id", peerID.String()))
 	}
 
+	// Drop identical re-deliveries: the message does not say which validator it belongs to, so a late
+	// retransmission of an earlier validator's share would be taken for the current validator's share.
+	// Every validator yields a fresh share; only the empty share of a non-participating node repeats.
+	if share := protoMsg.GetPublicKeyShare(); len(share) > 0 && b.dedup.isDuplicate(valPubKeyShareMsg, append([]byte(peerID), share...)) {
+		log.Debug(b.logCtx, "Dropping duplicate validator pubkey share", z.Str("from", peerID.String()))
+		return nil, true, nil
+	}
+
 	vpks := ValidatorPubKeyShare{
 		PeerID:          peerID,
 		ValidatorPubKey: protoMsg.GetPublicKeyShare(),
